@@ -310,6 +310,11 @@ type clientTransaction struct {
 	start   time.Time
 	rto     time.Duration
 	raw     []byte
+	// gen counts how often the object has left the pool. A goroutine that
+	// still holds the pointer after the transaction was completed elsewhere
+	// (and the object recycled for another transaction) tells the two apart
+	// by it, see release.
+	gen uint32
 }
 
 func (t *clientTransaction) handle(e Event) {
@@ -327,7 +332,10 @@ var clientTransactionPool = &sync.Pool{ //nolint:gochecknoglobals
 }
 
 func acquireClientTransaction() *clientTransaction {
-	return clientTransactionPool.Get().(*clientTransaction) //nolint:forcetypeassert
+	t := clientTransactionPool.Get().(*clientTransaction) //nolint:forcetypeassert
+	t.gen++
+
+	return t
 }
 
 func putClientTransaction(t *clientTransaction) {
@@ -616,10 +624,13 @@ func (c *Client) delete(id transactionID) {
 // release removes t from the transaction table if it is still registered
 // under id and reports whether it was. False means that another goroutine has
 // taken the transaction in the meantime and is the one that completes it.
-func (c *Client) release(t *clientTransaction, id transactionID) bool {
+// gen is the generation of t the caller owns: the pointer alone does not
+// identify the transaction, because a completed one goes back to the pool and
+// may already be registered again, under the same ID, for somebody else.
+func (c *Client) release(t *clientTransaction, id transactionID, gen uint32) bool {
 	c.mux.Lock()
 	defer c.mux.Unlock()
-	if cur, ok := c.t[id]; !ok || cur != t {
+	if cur, ok := c.t[id]; !ok || cur != t || cur.gen != gen {
 		return false
 	}
 	delete(c.t, id)
@@ -691,6 +702,7 @@ func (c *Client) handleAgentCallback(event Event) { //nolint:cyclop
 		now     = c.clock.Now()
 		timeOut = transaction.nextTimeout(now)
 		id      = transaction.id
+		gen     = transaction.gen
 	)
 	// Starting client transaction.
 	if startErr := c.start(transaction); startErr != nil {
@@ -704,7 +716,7 @@ func (c *Client) handleAgentCallback(event Event) { //nolint:cyclop
 	}
 	// Starting agent transaction.
 	if startErr := c.a.Start(id, timeOut); startErr != nil {
-		if !c.release(transaction, id) {
+		if !c.release(transaction, id, gen) {
 			return
 		}
 		event.Error = startErr
@@ -716,7 +728,7 @@ func (c *Client) handleAgentCallback(event Event) { //nolint:cyclop
 	// Writing message to connection again.
 	_, writeErr := c.c.Write(buff.buf)
 	if writeErr != nil {
-		if !c.release(transaction, id) {
+		if !c.release(transaction, id, gen) {
 			return
 		}
 		event.Error = writeErr
@@ -749,10 +761,14 @@ func (c *Client) Start(msg *Message, handler Handler) error {
 	if closed {
 		return ErrClientClosed
 	}
-	var t *clientTransaction
+	var (
+		t   *clientTransaction
+		gen uint32
+	)
 	if handler != nil {
 		// Starting transaction only if h is set. Useful for indications.
 		t = acquireClientTransaction()
+		gen = t.gen
 		t.id = msg.TransactionID
 		t.start = c.clock.Now()
 		t.h = handler
@@ -767,7 +783,7 @@ func (c *Client) Start(msg *Message, handler Handler) error {
 		if err := c.a.Start(msg.TransactionID, d); err != nil {
 			// Not started: do not leave it in the table, where a later
 			// message with this ID would reach the handler.
-			if !c.release(t, msg.TransactionID) {
+			if !c.release(t, msg.TransactionID, gen) {
 				// A message with this ID (a late duplicate of an earlier
 				// response) reached the handler meanwhile: the caller has
 				// its outcome, an error would announce a second one.
@@ -779,7 +795,7 @@ func (c *Client) Start(msg *Message, handler Handler) error {
 	}
 	_, err := msg.WriteTo(c.c)
 	if err != nil && handler != nil {
-		if !c.release(t, msg.TransactionID) {
+		if !c.release(t, msg.TransactionID, gen) {
 			// The transaction was already completed meanwhile (time out,
 			// close): the handler has been given the outcome, so from the
 			// caller's point of view it was started.
